@@ -42,7 +42,7 @@ def distant(rng, shape, rows, bounded):
         elif kind == 'point':
             r2 = np.tile(np.array([int(rng.randint(s)) for s in shape]), (N, 1))
         elif kind == 'half':
-            r2 = rows[rng.permutation(N)[:max(1, N // 2)]]
+            r2 = rows[rng.permutation(N)[:N // 2]]
         else:
             r2 = np.vstack([rows, np.array([rng.randint(s, size=N) for s in shape]).T.reshape(N, d)])
         out.append(('distant_' + kind, r2.astype(int)))
@@ -79,6 +79,8 @@ def run_case(case, ctx):
         ctx.mon('harness_not_deterministic')
         ctx.trivial = True
         return
+    ctx.mon('release_events_recorded', sum(1 for e in r1['events'] if e['type'] == 'release'))
+    ctx.mon('selection_events_recorded', sum(1 for e in r1['events'] if e['type'] == 'select'))
     out = r1['output']
     ok_dom = bool(r1['domain_ok']) and out is not None and out.ndim == 2 and out.shape[1] == len(attrs) and \
         (out.size == 0 or ((out >= 0).all() and (out < np.array(shape)).all()))
